@@ -517,6 +517,8 @@ def jax_vmap(E, fn, in_axes=0, out_axes=0, **kw):
 
 
 def vmap_call(E, fn, in_axes, out_axes, args, kwargs):
+    if any(isinstance(a, C.Anything) for a in args):
+        return C.Anything("vmapped(...)")  # value irrelevant to the task (stubbed operands)
     args = [tt(a) for a in args]
     if not isinstance(in_axes, (tuple, list)):
         in_axes = [in_axes] * len(args)
